@@ -86,14 +86,17 @@ def run(ctx):
             for l in b.trace(t["args"][1], (), None, {"__flow_all__": lambda tt: callee_name(tt) in (
                     "std::convert::AsRef::as_ref", "std::vec::Vec::append", "std::ops::Deref::deref"), "__agg_all__": True}, follow_mut=True):
                 if l.kind == "param" and l.data == 1:
-                    emitted_paths.setdefault(arm, set()).add(tuple(x[1] for x in l.path if x[0] == "f"))
+                    # the variant is named by the binding's own path when arms share one emit site
+                    vs = [x[1] for x in l.path if x[0] == "v"]
+                    emitted_paths.setdefault(vs[0] if vs else arm, set()).add(tuple(x[1] for x in l.path if x[0] == "f"))
                 if l.kind == "mut":
                     # Vec::append(&mut to_be_serialized, &mut vec![..]): follow the appended vector's contents
                     mt = l.data[1]
                     for a_ in mt["args"][1:]:
                         for l2 in b.trace(a_, (), None, {"__flow_all__": lambda tt: callee_name(tt) in ("std::convert::AsRef::as_ref", "std::ops::Deref::deref"), "__agg_all__": True}):
                             if l2.kind == "param" and l2.data == 1:
-                                emitted_paths.setdefault(arm, set()).add(tuple(x[1] for x in l2.path if x[0] == "f"))
+                                vs = [x[1] for x in l2.path if x[0] == "v"]
+                                emitted_paths.setdefault(vs[0] if vs else arm, set()).add(tuple(x[1] for x in l2.path if x[0] == "f"))
         for v in adt["variants"]:
             want = {fl["name"] for fl in v["fields"]}
             got = set()
@@ -125,7 +128,7 @@ def run(ctx):
     canon.check_convert(ctx, "C05/D3", "C05/D3")
     cf = fx.fn_opt(canon.CONVERT)
     if cf:
-        b = body_of(fx, cf["key"])
+        b = ctx.region(None, policy="private", key=cf["key"])
         arms = None
         for (e, tb, fa) in b.all_edge_facts():
             if fa[0] in ("variant", "notvariant") and (fa[3] or "") == "serde_json::Value":
@@ -136,9 +139,9 @@ def run(ctx):
                  "variants with an explicit arm in convert: %s" % sorted(arms or []), cf["at"])
     wf = fx.fn_opt(canon.WRITE)
     if wf:
-        b = body_of(fx, wf["key"])
+        b = ctx.region(None, policy="private", key=wf["key"], ps=True)
         lps = b.loops()
         rec = [(i, t) for (i, t) in b.calls_named(canon.WRITE)]
-        okl = len(rec) == 2 and all(any(i in l for l in lps.values()) for (i, t) in rec) and \
+        okl = len(rec) >= 2 and all(any(i in l for l in lps.values()) for (i, t) in rec) and \
             all(not b.continuing_exits(min([l for l in lps.values() if i in l], key=len)) for (i, t) in rec)
         ctx.inst("C05/D3", "arrays and objects emit every element", okl, "recursive write calls inside loops without early exit: %s" % okl, wf["at"])
